@@ -18,6 +18,7 @@ def design_models(chk, thorough):
         ("GenDFS", "GenDFS_3x3_dfs.cfg", None, "gen_dfs default args on 3x3, all starts"),
         ("GenDFS", "GenDFS_matrix_small.cfg", None, "argument matrix acc x max_tree_depth x do_forks x randomized_stack on shapes <= 2x3/3x2"),
         ("GenDFS", "GenDFS_perc.cfg", ["PercAny"], "gen_dfs_percolation (p = 0, 0<p<1 with every coin array, p = 1) on shapes <= 2x2"),
+        ("GenDFS", "GenDFS_live.cfg", None, "termination of gen_dfs / gen_prim for the whole argument matrix: 2*(unvisited) + len(stack) strictly decreases (<= 3RC iterations); under weak fairness the call returns"),
         ("GenWilson", "GenWilson_small.cfg", ["PickAny", "StepAny"], "gen_wilson on shapes <= 2x3/3x2, every walk"),
         ("GenWilson", "GenWilson_3x3.cfg", None, "gen_wilson 3x3 (7 897 states)"),
         ("GenPerc", "GenPerc_small.cfg", ["CoinsAny", "FillEdges", "Component"], "gen_percolation on shapes <= 2x2, every coin array, every start"),
@@ -34,6 +35,7 @@ def design_models(chk, thorough):
     for mod, cfg, acts, what in runs:
         r = lib.tlc_design(mod, cfg, expect_actions=acts, tag=cfg[:-4], timeout=3000)
         chk.add_model(f"{mod}/{cfg[:-4]}", r, what)
+    lib.tlc_expect_violation("GenDFS", "GenDFS_unfair.cfg", "Returns", tag="gduf")  # the liveness property is not vacuous
 
 
 # ------------------------------------------------------------------------------------ jobs
